@@ -3,6 +3,7 @@
    Model/JWS.v (allow-list and registry before any key handling). *)
 From Coq Require Import List NArith ZArith Bool Ascii String.
 From Authlib Require Import Base.Bytes Base.Base64 Base.PyVal Model.KeyPolicy Model.JWS Proofs.KeyPolicyP Proofs.JWSP.
+From Authlib Require Model.JWE.
 Import ListNotations.
 Open Scope nat_scope.
 Open Scope string_scope.
@@ -94,3 +95,35 @@ Proof.
   - unfold crit_check in CR. destruct (validate_crit _ h); [discriminate|reflexivity].
 Qed.
 Print Assumptions none_is_never_accepted_and_policy_precedes_acceptance.
+
+(* an allow-list is a list: the empty one admits nothing, at either layer (it is not the absence of a list) *)
+Theorem empty_allow_list_admits_nothing :
+  forall json_loads registered prepare_key verify private s rawkey,
+  (forall r, deserialize_compact json_loads registered prepare_key verify (Some []) private s rawkey <> JOk r).
+Proof.
+  intros json_loads registered prepare_key verify private s rawkey r H. destruct r as [h payload].
+  destruct (compact_accept_sound_l json_loads registered prepare_key verify _ _ _ _ _ _ H)
+    as [pseg [plseg [sigseg [sg [alg [k [_ [_ [_ [_ [_ [_ [P _]]]]]]]]]]]]].
+  destruct (prepare_sound registered prepare_key _ _ _ _ _ P) as [_ [_ [L _]]].
+  specialize (L [] eq_refl). discriminate.
+Qed.
+Print Assumptions empty_allow_list_admits_nothing.
+
+(* the two layers of a JsonWebToken share one allow-list: a list that names no key-management algorithm admits no encrypted
+   token, whatever the registries hold *)
+Theorem signature_only_allow_list_admits_no_encrypted_token :
+  forall alg_registered (l : list string) h,
+  (forall a, In a l -> alg_registered a = false) ->
+  forall r, JWE.header_alg alg_registered (Some l) h <> JWE.EOk r.
+Proof.
+  intros alg_registered l h Hl r. unfold JWE.header_alg, JWE.str_member.
+  destruct (dict_get "alg" h) as [v|]; [|discriminate]. destruct v; try discriminate.
+  unfold JWE.allowed. destruct (list_in_str s l) eqn:E; simpl; [|discriminate].
+  apply list_in_str_In in E. rewrite (Hl s E). discriminate.
+Qed.
+Print Assumptions signature_only_allow_list_admits_no_encrypted_token.
+
+Theorem empty_allow_list_admits_no_encrypted_token :
+  forall alg_registered h r, JWE.header_alg alg_registered (Some []) h <> JWE.EOk r.
+Proof. intros. apply signature_only_allow_list_admits_no_encrypted_token. intros a []. Qed.
+Print Assumptions empty_allow_list_admits_no_encrypted_token.
